@@ -75,6 +75,11 @@ C["C20"] = ("model_checking",
   TRUST + "Bounds: <= 3 adds, <= 2 iterators + 1 BlockingAdd in the exhaustive models; one blocking Deque iterator per run; schedules to depth 12, random to 16. Reading: an iterator that overlapped a removal is only judged for no-panic, yields-were-added-and-behind-the-position, returns on Close / cancel (DESIGN.md 0.6).",
   "TLA+ Impl specs + exhaustive TLC; spec-generated schedules (hold / burst steps) executed at quiescence granularity; TLC trace validation of recorded histories", "DESIGN.md 5 C20")
 
+C["C03"] = ("model_checking",
+  "ErrContract.tla holds Classify (the transcription of CanContinueOnError and of the recover wrappers) and an independent Contract (what C03 demands per failure kind x option set, unconstrained cells left open); TLC checks Classify refines Contract over the 11 kinds x 2^4 options matrix and prints every cell, each replayed through the four real recover wrappers and CanContinueOnError.  WorkersFault.tla is the implementation-shaped spec of ProcessParallel / Map / GenerateParallel with failing user functions (error filter, ReadAll's EOF-to-nil mapping, cancel wiring, closer, collector) checked exhaustively for NothingSwallowed, NeverReported, NilIffNoFailure, exactly-once under Continue*, the abort bound (failing worker takes no further item; items started after the first failure returned <= workers) and termination; switches re-create the two repaired defects as expected-violation self-tests.  WgErrCtl generates controllable schedules (construct x options x collector x fault kinds / positions x who is held where) executed on the five real constructs with gated callbacks; the abort bound is judged without time (hold every other callback when the first failure returns, release one at a time to quiescence, count new starts); every replay log and free-running histories are validated by TLC (WgErrTrace).",
+  TRUST + "Bounds: n <= 3-4 items, k <= 2-3 workers, <= 1-2 failures in the exhaustive models; schedules n <= 8, k <= 3. Readings of DESIGN.md 5.0 (unclassified outcomes unconstrained; 'reported' = errors.Is on the result / Close()).",
+  "TLA+ contract table + Impl spec with faults checked by TLC; spec-generated fault schedules replayed on the code at quiescence; TLC trace validation", "DESIGN.md 5 C03")
+
 WIP = "check not built yet (work in progress, see DESIGN.md section 9)"
 
 
